@@ -340,7 +340,7 @@ func execBatch(e kvql.Expression, kvs [][2]string, cache bool) (vals []any, err 
 	return
 }
 
-// parseField parses `select <expr> where key != ''` and returns the checked (not folded)
+// parseField parses `select <expr> where key != ”` and returns the checked (not folded)
 // field expression.
 func parseField(expr string) (kvql.Expression, error) {
 	stmt, err := kvql.NewParser("select " + expr + " where key != 'zzzz'").Parse()
